@@ -1,5 +1,6 @@
 import SpecVerif.Model.C05Proto
 import SpecVerif.Model.C03
+import SpecVerif.Model.C03Boot
 /-!
 Line-protocol driver for the C03 correspondence: every command of `Drivers/C05.lean`
 (class table, constructor, scalar / top-level helpers, assignment, deletion) plus the
@@ -14,8 +15,14 @@ Additional commands (flags as in C05; `<by>` ∈ {a (auto), y, n}; `<ins>` ∈ {
   `mwith <flags> <attr> <k v> <v v>` · `mupd <flags> <attr> <k v> <new v>` · `mtra <flags> <attr> <k v> <tr>` · `mdel <flags> <attr> <k v>`
   `swith <flags> <attr> <item v>` · `supd <flags> <attr> <item v> <new v>` · `stra <flags> <attr> <item v> <tr>` · `sdel <flags> <attr> <item v>`
 Output: `<ret> ;; <receiver state> ;; wt=<0|1><0|1>` (invariant on the receiver, on the returned object).
+
+Class statements instead of ready-made class table lines (`SpecVerif.C03Boot.bootstrap` computes the table entry):
+  `decl <id> <s|p> <base|_> <key: _ inherit, - None, N> <ovf|_> <skip: _ | k a…> <k> <attrs a…> <k> <attrs_typed (a ty)…>
+        <k> <entries (name <ann ty|_> <body: _ | v val | d val | f val | b | p val> <prep|_> <item prep|_>)…>`
+A `new` line may come more than once per case: every one starts a new receiver (classes used before the class under
+test is first used).
 -/
-open SpecVerif.Py SpecVerif.C05 SpecVerif.C03 C05Driver
+open SpecVerif.Py SpecVerif.C05 SpecVerif.C03 SpecVerif.C03Boot C05Driver
 
 namespace C03Driver
 
@@ -70,35 +77,105 @@ def parseElem (ts : List String) : Option (Nat × EOp × Flags) :=
       pure (a, .setWithout v, f)
   | _ => none
 
+def pOptTy : P (Option Ty)
+  | "_" :: r => some (none, r)
+  | r => (pTy r).map (fun (t, r) => (some t, r))
+
+def pBody : P Body
+  | "_" :: r => some (.absent, r)
+  | "b" :: r => some (.bare, r)
+  | "v" :: r => (pVal r).map (fun (v, r) => (.value v, r))
+  | "d" :: r => (pVal r).map (fun (v, r) => (.dflt v, r))
+  | "f" :: r => (pVal r).map (fun (v, r) => (.factory v, r))
+  | "p" :: r => (pVal r).map (fun (v, r) => (.prop v, r))
+  | _ => none
+
+partial def pEntries : Nat → P (List Entry)
+  | 0, r => some ([], r)
+  | k+1, r => do
+      let (name, r) ← pNat r; let (ann, r) ← pOptTy r; let (body, r) ← pBody r
+      let (p, r) ← pOptNat r; let (ip, r) ← pOptNat r
+      let (es, r) ← pEntries k r
+      pure ({ name := name, ann := ann, body := body, prep := p, itemPrep := ip } :: es, r)
+
+partial def pTyped : Nat → P (List (Nat × Ty))
+  | 0, r => some ([], r)
+  | k+1, r => do
+      let (a, r) ← pNat r; let (t, r) ← pTy r; let (ts, r) ← pTyped k r
+      pure ((a, t) :: ts, r)
+
+def pKeyOpt : P KeyOpt
+  | "_" :: r => some (.inherit, r)
+  | "-" :: r => some (.disabled, r)
+  | t :: r => t.toNat?.map (fun n => (.named n, r))
+  | [] => none
+
+def pSkip : P (Option (List Nat))
+  | "_" :: r => some (none, r)
+  | r => do let (k, r) ← pNat r; let (xs, r) ← pNats k r; pure (some xs, r)
+
+def pDecl : P Decl := fun r => do
+  let (id, r) ← pNat r
+  let (isSpec, r) ← (match r with | "s" :: r => some (true, r) | "p" :: r => some (false, r) | _ => none)
+  let (base, r) ← pOptNat r
+  let (key, r) ← pKeyOpt r
+  let (ovf, r) ← pOptNat r
+  let (skip, r) ← pSkip r
+  let (na, r) ← pNat r; let (attrs, r) ← pNats na r
+  let (nt, r) ← pNat r; let (typed, r) ← pTyped nt r
+  let (ne, r) ← pNat r; let (entries, r) ← pEntries ne r
+  pure ({ id := id, isSpec := isSpec, base := base, entries := entries, attrs := attrs, attrsTyped := typed,
+          attrsSkip := skip, key := key, ovf := ovf }, r)
+
+/-- the C05 driver state plus the world of bootstrapped classes -/
+structure St3 where
+  st : St := {}
+  world : List RClass := []
+
 def bit (b : Bool) : String := if b then "1" else "0"
 
 def wtSuffix (E : Env) (o : Outcome) : String :=
   " ;; wt=" ++ bit (wt E o.recv) ++ bit (wt E o.result)
 
-def handle (st : St) (line : String) : St × String :=
+def handle (s3 : St3) (line : String) : St3 × String :=
+  let st := s3.st
+  let lift := fun (p : St × String) => ({ s3 with st := p.1 }, p.2)
   let ts := (line.trimAscii.toString.splitOn " ").filter (· ≠ "")
   match ts with
-  | "new" :: _ =>
-    let (st', o) := C05Driver.handle st line
-    (st', o ++ " ;; wt=" ++ bit (wt st'.env st'.recv) ++ bit (wt st'.env st'.recv))
-  | "reset" :: _ => C05Driver.handle st line
-  | "class" :: _ => C05Driver.handle st line
+  | "new" :: r =>
+    match (do let (c, r) ← pNat r; let (kw, _) ← pKw r; pure (c, kw)) with
+    | none => (s3, "bad-op")
+    | some (c, kw) =>
+      let ovf := ((s3.world.find? (·.id == c)).bind (·.ovf))
+      match constructB st.env ovf FUEL c kw with
+      | .ok v => ({ s3 with st := { st with recv := v, dead := false } },
+                  "ok ;; " ++ showVal v ++ " ;; wt=" ++ bit (wt st.env v) ++ bit (wt st.env v))
+      | .error e => ({ s3 with st := { st with recv := NONE, dead := true } }, "err " ++ e.name ++ " ;; N ;; wt=11")
+  | "reset" :: _ => ({}, "ok")
+  | "class" :: _ => lift (C05Driver.handle st line)
+  | "decl" :: r =>
+    match pDecl r with
+    | some (d, []) =>
+      let R := bootIn s3.world d
+      let cl := st.env.classes ++ [R.toSpec]
+      ({ st := { st with env := { classes := cl, prep := prepPool cl, pred := predPool } }, world := s3.world ++ [R] }, "ok")
+    | _ => (s3, "bad-decl")
   | _ =>
-    if st.dead then (st, "err AttributeError ;; N ;; wt=11")
+    if st.dead then (s3, "err AttributeError ;; N ;; wt=11")
     else match parseElem ts with
       | some (a, op, f) =>
         let o := step st.env FUEL st.recv (.elem a op f.inplace f.cond)
         let (st', s) := showRes st f.adopt o
-        (st', s ++ wtSuffix st.env o)
+        ({ s3 with st := st' }, s ++ wtSuffix st.env o)
       | none =>
         match parseCall ts with
-        | none => (st, "bad-op")
+        | none => (s3, "bad-op")
         | some (call, adopt) =>
           let o := step st.env FUEL st.recv (.api call)
           let (st', s) := showRes st adopt o
-          (st', s ++ wtSuffix st.env o)
+          ({ s3 with st := st' }, s ++ wtSuffix st.env o)
 
-partial def loop (h : IO.FS.Stream) (out : IO.FS.Stream) (st : St) : IO Unit := do
+partial def loop (h : IO.FS.Stream) (out : IO.FS.Stream) (st : St3) : IO Unit := do
   let line ← h.getLine
   if line.isEmpty then return ()
   let (st', o) := handle st line
